@@ -2,6 +2,7 @@
    Symbolic (Dolev-Yao) idealisation: the outer layer opens iff the receiver holds the exporter secret of the sender's state;
    a client obtains a state's secrets only by being in that state. *)
 From MDK Require Import Base.Prelude Base.AMap Mdk.Engine Mdk.EngineSpec Mdk.EngineProofs Mdk.EngineProofs2.
+From MDK Require Import Mdk.EngineProofs4 Mdk.EngineProofs5.
 
 (* along ANY run of API calls and deliveries from the join state, every state whose secrets the client holds - live or in
    a retained snapshot - is a state the client has been in *)
@@ -29,3 +30,23 @@ Theorem C03_no_secrets_no_plaintext : forall c e,
   k_secrets (kc c) = [] -> k_past (kc c) = [] -> e_state e <> k_cur (kc c) -> ~ reads c e.
 Proof. exact no_secrets_no_plaintext. Qed.
 Print Assumptions C03_no_secrets_no_plaintext.
+
+(* ---- members that join later (through a welcome): they start holding nothing, and along any run every state whose secrets
+   they hold - live or in a retained snapshot - is a state they have been in since joining; so nothing sent before they
+   joined is ever readable by them *)
+Theorem C03_joiner_holds_nothing : forall i a r cur ep d,
+  held_states (kc (join_client i a r cur ep d)) = [] /\ msgs (join_client i a r cur ep d) = [] /\ queue (join_client i a r cur ep d) = [].
+Proof. exact join_holds_nothing. Qed.
+Print Assumptions C03_joiner_holds_nothing.
+
+Theorem C03_joiner_secrets_only_of_visited_states : forall i a r cur ep d ops st,
+  let c := erun (join_client i a r cur ep d) ops in
+  (In st (held_states (kc c)) \/ exists s, In s (queue c) /\ In st (held_states (sn_core s))) ->
+  In st (visited (join_client i a r cur ep d) ops).
+Proof. exact joiner_secrets_only_of_visited_states. Qed.
+Print Assumptions C03_joiner_secrets_only_of_visited_states.
+
+Theorem C03_joiner_plaintext_only_for_visited : forall i a r cur ep d ops e,
+  reads (erun (join_client i a r cur ep d) ops) e -> In (e_state e) (visited (join_client i a r cur ep d) ops).
+Proof. exact joiner_plaintext_only_for_visited. Qed.
+Print Assumptions C03_joiner_plaintext_only_for_visited.
